@@ -53,14 +53,14 @@ struct Space {
 }
 
 pub fn run(ctx: &Ctx) -> i32 {
-    let tok_len = ctx.tier.pick(3, 4);
-    let chr_len = ctx.tier.pick(3, 4);
+    let tok_len = ctx.tier.pick(3, 5);
+    let chr_len = ctx.tier.pick(3, 5);
     let mut spaces: Vec<Space> = Vec::new();
     // T1: token sequences joined by ' ' and by '\n', under both flag values for the short ones
     for len in 1..=tok_len {
         for (jn, joiner) in [(0usize, " "), (1, "\n")] {
             for stack in [false, true] {
-                if stack && len == tok_len && len > 2 {
+                if (stack && len == tok_len && len > 2) || (len == 5 && (jn == 1 || stack)) {
                     continue;
                 }
                 let k = TOKENS.len();
